@@ -52,16 +52,17 @@ var diSpecs = map[string][]fieldSpec{
 
 // di holds the pools of the debug-info graph being generated.
 type di struct {
-	g      *G
-	next   int
-	files  []*am.MDNode
-	types  []*am.MDNode
-	scopes []*am.MDNode // file-level scopes: files, namespaces, modules, composite types, compile unit
-	locals []*am.MDNode // local scopes: subprograms, lexical blocks
-	gvars  []*am.MDNode
-	lvars  []*am.MDNode
-	cu     *am.MDNode
-	nodes  []*am.MDNode
+	g        *G
+	next     int
+	files    []*am.MDNode
+	types    []*am.MDNode
+	scopes   []*am.MDNode // file-level scopes: files, namespaces, modules, composite types, compile unit
+	locals   []*am.MDNode // local scopes: subprograms, lexical blocks
+	gvars    []*am.MDNode
+	lvars    []*am.MDNode
+	cu       *am.MDNode
+	nodes    []*am.MDNode
+	numExprs []*am.MDNode
 }
 
 func (d *di) node(kind string, distinct bool) *am.MDNode {
@@ -153,7 +154,7 @@ func (d *di) fill(n *am.MDNode, overrides map[string]*am.MDField) {
 		case "csk":
 			continue // checksumkind needs a checksum of matching length: added by the caller
 		case "expr":
-			f = &am.MDField{K: am.MDInline, Node: d.expr()}
+			f = d.exprField(d.expr())
 		case "mdvalue":
 			f = &am.MDField{K: am.MDValue, C: &am.Const{K: am.CInt, T: am.I32, Int: big.NewInt(int64(g.rng("tval", 0, 9)))}}
 		case "braces":
@@ -481,7 +482,7 @@ func (g *G) debugInfo() {
 		for len(ex.Fields) > 0 && ex.Fields[0].Str == "DW_OP_LLVM_fragment" {
 			ex = d.expr()
 		}
-		d.fill(gve, map[string]*am.MDField{"var": ref(gv), "expr": {K: am.MDInline, Node: ex}})
+		d.fill(gve, map[string]*am.MDField{"var": ref(gv), "expr": d.exprField(ex)})
 		gl.MD = append(gl.MD, &am.Attachment{Kind: "dbg", Node: ref(gve)})
 		cuGlobals = append(cuGlobals, ref(gve))
 	}
@@ -600,7 +601,7 @@ func (d *di) dbgIntrinsics(f *am.Fun, lv *am.MDNode) {
 				Args: []*am.Value{
 					{K: am.VMetadata, MD: &am.MDField{K: am.MDLocalValue, Local: &am.Value{K: am.VInst, I: in}}},
 					{K: am.VMetadata, MD: ref(lv)},
-					{K: am.VMetadata, MD: &am.MDField{K: am.MDInline, Node: d.exprNoFragment()}},
+					{K: am.VMetadata, MD: d.exprField(d.exprNoFragment())},
 				}}
 			call.ArgAttrs = make([][]string, 3)
 			out = append(out, call)
@@ -623,6 +624,30 @@ func (d *di) dbgIntrinsics(f *am.Fun, lv *am.MDNode) {
 		}
 		b.Insts = append(phis, rest...)
 	}
+}
+
+// exprField places a DIExpression: inline (the usual spelling) or, one time in four, as a numbered
+// definition `!N = !DIExpression(...)` that is referenced (the older spelling, still accepted by LLVM);
+// numbered expressions are reused so that several references share one definition.
+func (d *di) exprField(n *am.MDNode) *am.MDField {
+	g := d.g
+	if g.off("di-numbered-expr") || !g.chance("numberedexpr", 1, 4) {
+		return &am.MDField{K: am.MDInline, Node: n}
+	}
+	if len(d.numExprs) > 0 && g.chance("reuseexpr", 1, 3) {
+		for _, e := range d.numExprs {
+			if len(e.Fields) == 0 || e.Fields[0].Str != "DW_OP_LLVM_fragment" {
+				g.feat("di/numbered-expression-shared")
+				return ref(e)
+			}
+		}
+	}
+	n.ID = d.next
+	d.next++
+	d.nodes = append(d.nodes, n)
+	d.numExprs = append(d.numExprs, n)
+	g.feat("di/numbered-expression")
+	return ref(n)
 }
 
 func (d *di) exprNoFragment() *am.MDNode {
